@@ -30,6 +30,30 @@ class Unfoldable(Exception):
     pass
 
 
+class Raised(Exception):
+    """Partial evaluation reached a `raise` statement: the function raises for these arguments."""
+
+    def __init__(self, exc_name: str):
+        super().__init__(exc_name)
+        self.exc_name = exc_name
+
+
+class RaisesValue:
+    """Result of eval_body when the body raises for the given settings."""
+
+    def __init__(self, exc_name: str):
+        self.exc_name = exc_name
+
+    def __repr__(self) -> str:
+        return f"<raises {self.exc_name}>"
+
+    def __eq__(self, other) -> bool:
+        return isinstance(other, RaisesValue) and other.exc_name == self.exc_name
+
+    def __hash__(self) -> int:
+        return hash(("raises", self.exc_name))
+
+
 class CompiledPattern:
     """Value of `re.compile(<folded string>[, flags])` in the constant domain."""
 
@@ -340,6 +364,11 @@ class Folder:
         if isinstance(n, ast.IfExp):
             c = self._f(n.test, mod, env)
             return self._f(n.body if c else n.orelse, mod, env)
+        if isinstance(n, ast.NamedExpr) and isinstance(n.target, ast.Name) and getattr(self, "_in_body", 0):
+            # only while a body is being evaluated statement by statement (the environment is that run's own)
+            v = self._f(n.value, mod, env)
+            env[n.target.id] = v
+            return v
         if isinstance(n, ast.BoolOp):
             # short circuit, left to right, the value of the deciding operand (as Python does)
             val = None
@@ -403,6 +432,15 @@ class Folder:
             if isinstance(r, tuple) and r[0] == "ext" and r[1] == "re" and args and isinstance(args[0], str):
                 fl = args[1] if len(args) > 1 and isinstance(args[1], int) else kwargs.get("flags", 0)
                 return CompiledPattern(args[0], fl if isinstance(fl, int) else 0)
+        # re.findall / search / match / fullmatch / sub / split on known strings (pure functions of their arguments)
+        if isinstance(n.func, ast.Attribute) and isinstance(n.func.value, ast.Name) and n.func.value.id not in env and n.func.attr in ("findall", "search", "match", "fullmatch", "sub", "split"):
+            r0 = self.prog.resolve_name(mod, n.func.value.id)
+            if isinstance(r0, tuple) and r0[0] == "ext" and r0[1] == "re":
+                import re as _re0
+
+                vals = list(args) + list(kwargs.values())
+                if all(isinstance(v_, (str, int)) and not isinstance(v_, bool) for v_ in vals) and len(str(kwargs.get("string", args[1] if len(args) > 1 else ""))) < 5000:
+                    return getattr(_re0, n.func.attr)(*args, **kwargs)
         # itertools.chain(a, b, ...) / chain.from_iterable(xs): concatenation of known sequences (a list stands for it)
         fq = None
         if isinstance(n.func, ast.Name) and n.func.id not in env:
@@ -431,6 +469,10 @@ class Folder:
             return self._apply(callee, args, kwargs)
         if isinstance(n.func, ast.Attribute):
             recv = self._f(n.func.value, mod, env)
+            import re as _re1
+
+            if isinstance(recv, _re1.Match) and n.func.attr in ("group", "groups", "groupdict", "start", "end", "span"):
+                return getattr(recv, n.func.attr)(*args, **kwargs)
             for ty, meth in _SAFE_METHODS:
                 if isinstance(recv, ty) and n.func.attr == meth:
                     res = getattr(recv, meth)(*args, **kwargs)
@@ -462,17 +504,25 @@ class Folder:
             if self._depth > 4:
                 raise Unfoldable("depth")
             a = fn.node.args
-            if a.vararg or a.kwarg or a.posonlyargs:
+            if a.vararg or a.posonlyargs:
                 raise Unfoldable("signature")
             names = [x.arg for x in a.args]
             if len(args) > len(names):
                 raise Unfoldable("arity")
             env: Dict[str, Any] = dict(zip(names, args))
             kwnames = names + [x.arg for x in a.kwonlyargs]
+            extra: Dict[str, Any] = {}
             for k, v in kwargs.items():
-                if k not in kwnames or k in env:
+                if k in env:
                     raise Unfoldable("keyword")
+                if k not in kwnames:
+                    if a.kwarg is None:
+                        raise Unfoldable("keyword")
+                    extra[k] = v
+                    continue
                 env[k] = v
+            if a.kwarg is not None:
+                env[a.kwarg.arg] = extra
             defaults = dict(zip(names[len(names) - len(a.defaults):], a.defaults))
             for x, d in zip(a.kwonlyargs, a.kw_defaults):
                 if d is not None:
@@ -494,15 +544,19 @@ class Folder:
         `for` over known sequences, one `return`).  UNKNOWN when something does not fold."""
         self._steps = 0
         self._depth = getattr(self, "_depth", 0) + 1
+        self._in_body = getattr(self, "_in_body", 0) + 1
         try:
             done, val = self._block(fn.node.body, fn.module, dict(symenv))
             return val if done else None
+        except Raised as ex:
+            return RaisesValue(ex.exc_name)
         except Unfoldable:
             return UNKNOWN
         except (TypeError, ValueError, KeyError, IndexError, ZeroDivisionError, AttributeError, OverflowError):
             return UNKNOWN
         finally:
             self._depth -= 1
+            self._in_body -= 1
 
     def _block(self, stmts, mod: Module, env: Dict[str, Any]):
         import copy as _copy
@@ -518,6 +572,13 @@ class Folder:
             if isinstance(st, (ast.Assign, ast.AnnAssign)):
                 tgt = st.targets[0] if isinstance(st, ast.Assign) and len(st.targets) == 1 else getattr(st, "target", None)
                 if st.value is None:
+                    continue
+                if isinstance(tgt, (ast.Tuple, ast.List)) and all(isinstance(e, ast.Name) for e in tgt.elts):
+                    v = self._f(st.value, mod, env)
+                    if not isinstance(v, (tuple, list)) or len(v) != len(tgt.elts):
+                        raise Unfoldable("unpack")
+                    for e, x in zip(tgt.elts, v):
+                        env[e.id] = x
                     continue
                 if not isinstance(tgt, ast.Name):
                     raise Unfoldable("store")
@@ -540,6 +601,9 @@ class Folder:
                     if isinstance(obj, list) and meth in ("append", "extend", "insert", "sort") or isinstance(obj, set) and meth in ("add", "update", "discard") or isinstance(obj, dict) and meth == "update":
                         getattr(obj, meth)(*argv)
                         continue
+                if getattr(self, "_in_body", 0) and self._package_function(c.func, mod, env) is not None:
+                    self._f(c, mod, env)  # a call for its checks only (`h.check_name(name)`): it returns or it raises
+                    continue
                 raise Unfoldable("statement call")
             if isinstance(st, ast.If):
                 t = self._f(st.test, mod, env)
@@ -567,6 +631,15 @@ class Folder:
                 continue
             if isinstance(st, ast.Return):
                 return True, (None if st.value is None else self._f(st.value, mod, env))
+            if isinstance(st, ast.Raise) and getattr(self, "_in_body", 0):
+                exc = st.exc.func if isinstance(st.exc, ast.Call) else st.exc
+                raise Raised(ast.unparse(exc) if exc is not None else "")
+            if isinstance(st, ast.Expr) and isinstance(st.value, ast.Call) and getattr(self, "_in_body", 0):
+                # a call for its checks only (`h.check_name(name)`): it returns or it raises
+                callee = self._package_function(st.value.func, mod, env)
+                if callee is not None:
+                    self._f(st.value, mod, env)
+                    continue
             raise Unfoldable(type(st).__name__)
         return False, None
 
